@@ -96,10 +96,32 @@ def space(tier, seed):
     return items
 
 
-def mkdoc(i, zone="America/Los_Angeles"):
+STREAM_ZONES = ("America/Los_Angeles", "Asia/Kolkata", "America/Los_Angeles", "Australia/Lord_Howe", "UTC")
+FMT = "%a, %d %b %Y %H:%M:%S GMT"
+
+
+def is_date_string(v):
+    if not isinstance(v, str):
+        return False
+    try:
+        datetime.strptime(v, FMT)
+        return True
+    except ValueError:
+        return False
+
+
+def mkdoc(i, zone=None):
+    """one session document the way Eve serves it: the resource's fields plus Eve's own _id/_created/_updated/_etag
+    (the two dates in RFC-1123 form like every other date); consecutive documents of one result set come from
+    different time zones"""
+    if zone is None:
+        zone = STREAM_ZONES[i % len(STREAM_ZONES)]
     t0 = datetime(2019, 5, 1, 15, 0, 0, tzinfo=timezone.utc) + timedelta(hours=7 * i, seconds=13 * i)
     return {
         "_id": "id-%d" % i,
+        "_created": (t0 + timedelta(days=2, minutes=7)).strftime(FMT),
+        "_updated": (t0 + timedelta(days=40, hours=23)).strftime(FMT),
+        "_etag": "etag%d" % i,
         "sessionID": "sess-%d" % i,
         "connectionTime": t0.strftime("%a, %d %b %Y %H:%M:%S GMT"),
         "disconnectTime": (t0 + timedelta(hours=5)).strftime("%a, %d %b %Y %H:%M:%S GMT"),
@@ -145,7 +167,7 @@ def run_pages(item, only=None):
         if project is not None and "kWh" in project and (site != "caltech" or ts):
             continue
         # the server honours a projection the way Eve does: the named fields plus _id
-        keep = None if project is None else set(json.loads(project)) | {"_id"}
+        keep = None if project is None else set(json.loads(project)) | {"_id", "_created", "_updated", "_etag"}
         served = copy.deepcopy(pages) if keep is None else [[{k: v for k, v in d.items() if k in keep} for d in pg] for pg in pages]
         server = FakeServer(served, base=BASE)
         client = DataClient("tok-123")
@@ -209,19 +231,26 @@ def run_pages(item, only=None):
             if set(d) != set(src):
                 rep("pages:fields-added-or-dropped", "yielded document has fields %s, the server sent %s" % (sorted(d), sorted(src)), sorted(d), sorted(src), ctx)
                 break
-            if any(isinstance(src[k], str) and k.endswith("Time") and not isinstance(d[k], datetime) for k in src) or any(src[k] is None and d[k] is not None for k in src):
-                rep("pages:dates-not-parsed", "yielded document still carries string dates", str(d.get("connectionTime")), None, ctx)
+            unparsed = [k for k in src if is_date_string(src[k]) and not isinstance(d[k], datetime)]
+            if unparsed or any(src[k] is None and d[k] is not None for k in src):
+                rep("pages:dates-not-parsed", "yielded document still carries RFC-1123 strings in %s" % unparsed, str(d.get(unparsed[0])) if unparsed else None, None, ctx)
                 break
-            bad_instant = False
+            bad_instant, bad_zone = False, None
+            dz = pytz.timezone(src["timezone"]) if "timezone" in src else pytz.utc
             for k in src:
-                if isinstance(src[k], str) and k.endswith("Time") and isinstance(d[k], datetime):
-                    want_i = datetime.strptime(src[k], "%a, %d %b %Y %H:%M:%S GMT")
+                if is_date_string(src[k]) and isinstance(d[k], datetime):
+                    want_i = datetime.strptime(src[k], FMT)
                     if d[k].tzinfo is None or d[k].astimezone(timezone.utc).replace(tzinfo=None) != want_i:
                         bad_instant = True
+                    elif d[k].utcoffset() != pytz.utc.localize(want_i).astimezone(dz).utcoffset():
+                        bad_zone = (k, str(d[k]), src.get("timezone"))
             if bad_instant:
                 rep("pages:dates-instant", "a yielded document's time field is naive or denotes another instant than the server's string", None, None, ctx)
                 break
-            if any(d[k] != src[k] for k in src if not k.endswith("Time")):
+            if bad_zone:
+                rep("pages:dates-zone", "field %s = %s does not carry the offset of the document's own time zone %s (documents of several zones in one result set)" % bad_zone, bad_zone[1], bad_zone[2], ctx)
+                break
+            if any(d[k] != src[k] for k in src if not is_date_string(src[k])):
                 rep("pages:fields-altered", "non-date fields altered", None, None, ctx)
                 break
         stats["out"].add((len(sizes), 0 in sizes, n))
